@@ -189,4 +189,20 @@ CLAIMS = {
         'not_decided': 'that the evaluated graph equals the one defined by the manual for every manifest; the lexer\'s '
                        'token grammar (varname alphabet, $-escapes) beyond the sentinel proof of C13.',
     },
+    'C13': {
+        'design': '5.13',
+        'technique': 'value-set abstract interpretation of the re2c scanners + recursion discipline over the whole-program call graph + interval bounds on file-derived values + null/emptiness discipline, with positive-control fixtures',
+        'decides': 'for every re2c scanner (ReadToken, EatWhitespace, ReadIdent, ReadEvalString, DepfileParser::Parse) no '
+                   'byte is read through the cursor after it may have passed the terminating NUL on any path (abstract '
+                   'interpretation with the exact yybm tables), the cursor is stored past the NUL only with TEOF, scanner '
+                   'inputs are std::string / C strings and nobody scans after TEOF; file-derived indices, counts and read '
+                   'sizes in the log loaders are bounded on both sides; every recursion reachable from main has a '
+                   'visited-set-before-descent, a structurally decreasing argument or a verified acyclicity entry '
+                   'condition (known findings: include cycle, `-t targets depth 0`); nullable results (memchr, getenv, '
+                   'fopen, Lookup*, GetDeps, GetBinding) are known non-null at every dereference; begin() of a container is '
+                   'dereferenced only where it is known non-empty; std::get on the result variant is guarded by '
+                   'holds_alternative. Zero-expected rules are validated by planted controls on every run.',
+        'not_decided': 'memory safety in general (index arithmetic in ElideMiddle, CanonicalizePath, the in-place '
+                       'de-escaping writes of the depfile parser); absence of hangs (loop progress).',
+    },
 }
